@@ -350,6 +350,25 @@ func (e *env) portTaken(port int) bool {
 	return false
 }
 
+// foreignOn: a socket that is not of this scenario is bound to the port. Every UDPPeer
+// has SO_REUSEADDR and SO_REUSEPORT, so an ephemeral bind made by another process
+// (a parallel driver, the library's own tests) may be given a port one of this
+// scenario's peers holds; unicast to it is then balanced between the two.
+func (e *env) foreignOn(port int) bool {
+	own := map[uint64]bool{inodeOf(e.x): true}
+	for _, o := range e.socks {
+		own[inodeOf(o.fd)] = true
+	}
+	for ino := range udpPortInodes(port) {
+		if !own[ino] {
+			return true
+		}
+	}
+	return false
+}
+
+var errForeign = fmt.Errorf("a socket of another process shares a port of this scenario: address already in use")
+
 func (e *env) openPeer(id int, addr string) error {
 	var p *multicast.UDPPeer
 	var s *sock
@@ -368,7 +387,7 @@ func (e *env) openPeer(id int, addr string) error {
 			return err
 		}
 		ephemeral := addr == "" || strings.HasSuffix(addr, ":0")
-		if !ephemeral || !e.portTaken(s.port) || try > 8 {
+		if !ephemeral || try > 8 || !(e.portTaken(s.port) || len(udpPortInodes(s.port)) > 1) {
 			break
 		}
 		e.d.info["ephemeral port collided with another reuse socket, peer re-created"]++
@@ -1045,7 +1064,13 @@ func (d *driver) scenario(steps []Step) error {
 			n := e.fit(e.sizeOf(st))
 			ev := Ev{Ev: "Send", Did: e.did, Len: n, G: dip, Port: rcv.port}
 			ev.Src, ev.Sport, _ = sockName(fd)
+			if e.foreignOn(rcv.port) {
+				return errForeign
+			}
 			serr := unix.Sendto(fd, payload(e.did, n), 0, &unix.SockaddrInet4{Port: rcv.port, Addr: ip4(dip)})
+			if e.foreignOn(rcv.port) {
+				return errForeign
+			}
 			ev.Err = errClass(serr)
 			d.emit(ev)
 			if serr != nil {
@@ -1301,6 +1326,7 @@ func Run(a tr.Args) error {
 		// start the scenario again (its Begin event resets the monitor)
 		err := d.scenario(steps)
 		for try := 0; try < 3 && err != nil && strings.Contains(err.Error(), "address already in use"); try++ {
+			d.info["scenario started again: "+err.Error()[strings.LastIndex(err.Error(), ": ")+2:]]++
 			d.rng = rand.New(rand.NewSource(a.Seed ^ int64(h.Sum64()>>1)))
 			err = d.scenario(steps)
 		}
